@@ -1,6 +1,7 @@
 /-
   MF.Proofs.TypeOfDeriv — from a derivation of G_T over the kinds of a token list to THE tree of that derivation:
-  `typeD_tree`: if `TypeD (toks.map kind)` and `HeadsOK toks`, there is a `wf` tree whose yield matches `toks`.
+  `typeD_tree`: if `TypeD (toks.map kind)`, there is a `wf` tree whose yield matches `toks` (no side condition since
+  the repair of `lookaheadSimpleType`: `date.T` is the named type the grammar says it is).
   (Together with `parseTypeTop_complete` this is C08 for types; `Match` + `wf` determine the tree uniquely, see
   `MF.Proofs.TypeUnique`.)
 -/
@@ -8,24 +9,9 @@ import MF.Proofs.TypeDeriv
 namespace MF.TypeP
 open MF.TypeG
 
-/-- the token in front of a segment (if any) is not a `.` -/
-def NotDotEnd (X : List Token) : Prop := ∀ X' c, X = X' ++ [c] → c.kind ≠ K "."
-
-theorem notDotEnd_nil : NotDotEnd [] := by
-  intro X' c h
-  simp at h
-
-theorem notDotEnd_snoc (X : List Token) {c : Token} (h : c.kind ≠ K ".") : NotDotEnd (X ++ [c]) := by
-  intro X' d e
-  obtain ⟨_, h2⟩ := List.append_inj' e rfl
-  simp only [List.cons.injEq, and_true] at h2
-  subst h2
-  exact h
-
 /-- what the induction proves for one kind sequence -/
 def TreeOf (ks : List TokKind) : Prop :=
-  ∀ (mid X Y : List Token), mid.map (·.kind) = ks → HeadsOK (X ++ mid ++ Y) → NotDotEnd X →
-    ∃ t, wf t = true ∧ Match (yieldT t) mid
+  ∀ (mid : List Token), mid.map (·.kind) = ks → ∃ t, wf t = true ∧ Match (yieldT t) mid
 
 theorem tk_of_kind {t : Token} {c : TK} (h : t.kind = kindOf c) (hc : c ≠ .other) : tk t.kind = c := by
   rw [h]; exact tk_kindOf c hc
@@ -33,14 +19,13 @@ theorem tk_of_kind {t : Token} {c : TK} (h : t.kind = kindOf c) (hc : c ≠ .oth
 /-- the identifiers of `ident { "." ident }` -/
 theorem path_idents (n : Nat) : ∀ (mid : List Token), mid.map (·.kind) = pathKinds n →
     ∃ a ids, Match (yieldPath (a :: ids)) mid ∧ ids.length = n ∧
-      ∃ t0 r, mid = t0 :: r ∧ t0.kind = .ident ∧ a.name = t0.asString ∧ (n = 0 → r = []) ∧
-        (n ≠ 0 → ∃ d r', r = d :: r' ∧ d.kind = K ".") := by
+      ∃ t0 r, mid = t0 :: r ∧ t0.kind = .ident ∧ a.name = t0.asString ∧ (n = 0 → r = []) := by
   induction n with
   | zero =>
     intro mid h
     simp only [pathKinds, List.map_eq_cons_iff, List.map_eq_nil_iff] at h
     obtain ⟨t0, r, rfl, hk, rfl⟩ := h
-    refine ⟨⟨t0.pos, t0.end, t0.asString⟩, [], ?_, rfl, t0, [], rfl, hk, rfl, fun _ => rfl, fun h => absurd rfl h⟩
+    refine ⟨⟨t0.pos, t0.end, t0.asString⟩, [], ?_, rfl, t0, [], rfl, hk, rfl, fun _ => rfl⟩
     exact ⟨⟨tk_of_kind (c := .ident) hk (by decide), rfl⟩, trivial⟩
   | succ n ih =>
     intro mid h
@@ -48,18 +33,19 @@ theorem path_idents (n : Nat) : ∀ (mid : List Token), mid.map (·.kind) = path
     obtain ⟨t0, r, rfl, hk, d, r', rfl, hd, hr⟩ := h
     obtain ⟨b, ids, hm, hl, _⟩ := ih r' hr
     refine ⟨⟨t0.pos, t0.end, t0.asString⟩, b :: ids, ?_, by simp [hl], t0, d :: r', rfl, hk, rfl,
-      fun h => by omega, fun _ => ⟨d, r', rfl, hd⟩⟩
+      fun h => by omega⟩
     simp only [yieldPath]
     exact ⟨⟨tk_of_kind (c := .ident) hk (by decide), rfl⟩, tk_of_kind (c := .dot) hd (by decide), hm⟩
 
+/-- `ident { "." ident }`: ONE identifier that reads as a simple type name is that `SimpleType`; everything else —
+in particular every dotted path, whatever its first component spells (`date.T`) — is a `NamedType` -/
 theorem path_tree (n : Nat) : TreeOf (pathKinds n) := by
-  intro mid X Y hk hh hx
-  obtain ⟨a, ids, hm, hl, t0, r, rfl, hk0, ha, h0, h1⟩ := path_idents n mid hk
-  by_cases hn : n = 0
-  · subst hn
-    have := h0 rfl; subst this
-    have : ids = [] := by simpa using hl
-    subst this
+  intro mid hk
+  obtain ⟨a, ids, hm, hl, t0, r, rfl, hk0, ha, h0⟩ := path_idents n mid hk
+  cases ids with
+  | nil =>
+    have hn : n = 0 := by simpa using hl.symm
+    have := h0 hn; subst this
     cases hs : simpleOf t0.asString with
     | none =>
       refine ⟨.named [a], by simp [wf, ha, hs], hm⟩
@@ -68,15 +54,7 @@ theorem path_tree (n : Nat) : TreeOf (pathKinds n) := by
       simp only [yieldT]
       refine ⟨⟨tk_of_kind (c := .ident) hk0 (by decide), rfl, ?_⟩, trivial⟩
       rw [simpleName?_eq' hk0, hs]
-  · obtain ⟨d, r', rfl, hd⟩ := h1 hn
-    refine ⟨.named (a :: ids), ?_, hm⟩
-    simp only [wf, ha]
-    cases hs : simpleOf t0.asString with
-    | none => rfl
-    | some nm =>
-      exfalso
-      obtain ⟨l', c, e, hc⟩ := hh X t0 d (r' ++ Y) (by simp) hk0 (by simp [hs]) hd
-      exact hx l' c e hc
+  | cons b ids => exact ⟨.named (a :: b :: ids), rfl, hm⟩
 where
   simpleName?_eq' {t : Token} (h : t.kind = .ident) : simpleName? t = simpleOf t.asString := by
     unfold simpleName? simpleOf
@@ -85,13 +63,10 @@ where
     simp [Token.isIdent, h]
 
 theorem array_tree {ks : List TokKind} (ih : TreeOf ks) : TreeOf (K "ARRAY" :: K "<" :: ks ++ [K ">"]) := by
-  intro mid X Y hk hh hx
+  intro mid hk
   simp only [List.map_eq_cons_iff, List.map_eq_append_iff, List.map_eq_nil_iff] at hk
   obtain ⟨l1, l2, rfl, ⟨tA, r1, rfl, hA, tL, inner, rfl, hL, hi⟩, tG, r3, rfl, hG, rfl⟩ := hk
-  obtain ⟨t, hw, hm⟩ := ih inner (X ++ [tA, tL]) ([tG] ++ Y) hi (by simpa using hh)
-    (by
-      have := notDotEnd_snoc (X ++ [tA]) (c := tL) (by rw [hL]; decide)
-      simpa using this)
+  obtain ⟨t, hw, hm⟩ := ih inner hi
   refine ⟨.array tA.pos tG.pos t, by simpa [wf] using hw, ?_⟩
   simp only [yieldT]
   refine ⟨⟨tk_of_kind (c := .array) hA (by decide), rfl⟩, tk_of_kind (c := .lt) hL (by decide), ?_⟩
@@ -99,41 +74,40 @@ theorem array_tree {ks : List TokKind} (ih : TreeOf ks) : TreeOf (K "ARRAY" :: K
 
 /-- one field -/
 theorem field_tree {f : Bool × List TokKind} (ih : TreeOf f.2) :
-    ∀ (mid X Y : List Token), mid.map (·.kind) = fieldKinds f → HeadsOK (X ++ mid ++ Y) → NotDotEnd X →
+    ∀ (mid : List Token), mid.map (·.kind) = fieldKinds f →
       ∃ i t, wf t = true ∧ Match (yieldName i ++ yieldT t) mid := by
-  intro mid X Y hk hh hx
+  intro mid hk
   obtain ⟨named, ks⟩ := f
   cases named with
   | false =>
     simp only [fieldKinds, Bool.false_eq_true, if_false, List.nil_append] at hk
-    obtain ⟨t, hw, hm⟩ := ih mid X Y hk hh hx
+    obtain ⟨t, hw, hm⟩ := ih mid hk
     exact ⟨none, t, hw, by simpa [yieldName] using hm⟩
   | true =>
     simp only [fieldKinds, if_true, List.cons_append, List.nil_append, List.map_eq_cons_iff] at hk
     obtain ⟨n, r, rfl, hn, hr⟩ := hk
-    obtain ⟨t, hw, hm⟩ := ih r (X ++ [n]) Y hr (by simpa using hh) (notDotEnd_snoc X (by rw [hn]; decide))
+    obtain ⟨t, hw, hm⟩ := ih r hr
     refine ⟨some ⟨n.pos, n.end, n.asString⟩, t, hw, ?_⟩
     simp only [yieldName, List.cons_append, List.nil_append]
     exact ⟨⟨tk_of_kind (c := .ident) hn (by decide), rfl⟩, hm⟩
 
 /-- the fields after the first, each preceded by its comma -/
 theorem more_tree (fs : List (Bool × List TokKind)) (ih : ∀ f ∈ fs, TreeOf f.2) :
-    ∀ (mid X Y : List Token), mid.map (·.kind) = (fs.map (fun f => [K ","] ++ fieldKinds f)).flatten →
-      HeadsOK (X ++ mid ++ Y) → ∃ F, wfs F = true ∧ Match (yieldMore F) mid := by
+    ∀ (mid : List Token), mid.map (·.kind) = (fs.map (fun f => [K ","] ++ fieldKinds f)).flatten →
+      ∃ F, wfs F = true ∧ Match (yieldMore F) mid := by
   induction fs with
   | nil =>
-    intro mid X Y hk _
+    intro mid hk
     simp only [List.map_nil, List.flatten_nil, List.map_eq_nil_iff] at hk
     subst hk
     exact ⟨.nil, rfl, trivial⟩
   | cons f fs ihf =>
-    intro mid X Y hk hh
+    intro mid hk
     simp only [List.map_cons, List.flatten_cons, List.cons_append, List.nil_append, List.map_eq_cons_iff,
       List.map_eq_append_iff] at hk
     obtain ⟨c, r, rfl, hc, pf, pm, rfl, hpf, hpm⟩ := hk
-    obtain ⟨i, t, hw, hm⟩ := field_tree (ih f (by simp)) pf (X ++ [c]) (pm ++ Y) hpf (by simpa using hh)
-      (notDotEnd_snoc X (by rw [hc]; decide))
-    obtain ⟨F, hwF, hmF⟩ := ihf (fun g hg => ih g (by simp [hg])) pm (X ++ c :: pf) Y hpm (by simpa using hh)
+    obtain ⟨i, t, hw, hm⟩ := field_tree (ih f (by simp)) pf hpf
+    obtain ⟨F, hwF, hmF⟩ := ihf (fun g hg => ih g (by simp [hg])) pm hpm
     refine ⟨.cons i t F, by simp [wfs, hw, hwF], ?_⟩
     simp only [yieldMore, List.cons_append]
     refine ⟨tk_of_kind (c := .comma) hc (by decide), ?_⟩
@@ -141,7 +115,7 @@ theorem more_tree (fs : List (Bool × List TokKind)) (ih : ∀ f ∈ fs, TreeOf 
 
 theorem struct_tree (fs : List (Bool × List TokKind)) (ih : ∀ f ∈ fs, TreeOf f.2) :
     TreeOf (K "STRUCT" :: K "<" :: sepBy [K ","] (fs.map fieldKinds) ++ [K ">"]) := by
-  intro mid X Y hk hh hx
+  intro mid hk
   simp only [List.map_eq_cons_iff, List.map_eq_append_iff, List.map_eq_nil_iff] at hk
   obtain ⟨l1, l2, rfl, ⟨tS, r1, rfl, hS, tL, inner, rfl, hL, hi⟩, tG, r3, rfl, hG, rfl⟩ := hk
   have hfields : ∃ F, wfs F = true ∧ Match (yieldFs F) inner := by
@@ -154,13 +128,9 @@ theorem struct_tree (fs : List (Bool × List TokKind)) (ih : ∀ f ∈ fs, TreeO
       rw [List.map_cons, sepBy_cons] at hi
       simp only [List.map_map, List.map_eq_append_iff] at hi
       obtain ⟨pf, pm, rfl, hpf, hpm⟩ := hi
-      obtain ⟨i, t, hw, hm⟩ := field_tree (ih f (by simp)) pf (X ++ [tS, tL]) (pm ++ [tG] ++ Y) hpf
-        (by simpa using hh)
-        (by
-          have := notDotEnd_snoc (X ++ [tS]) (c := tL) (by rw [hL]; decide)
-          simpa using this)
-      obtain ⟨F, hwF, hmF⟩ := more_tree fs (fun g hg => ih g (by simp [hg])) pm (X ++ tS :: tL :: pf) ([tG] ++ Y)
-        (by simpa [Function.comp_def] using hpm) (by simpa using hh)
+      obtain ⟨i, t, hw, hm⟩ := field_tree (ih f (by simp)) pf hpf
+      obtain ⟨F, hwF, hmF⟩ := more_tree fs (fun g hg => ih g (by simp [hg])) pm
+        (by simpa [Function.comp_def] using hpm)
       exact ⟨.cons i t F, by simp [wfs, hw, hwF], by simpa only [yieldFs] using hm.append hmF⟩
   obtain ⟨F, hwF, hmF⟩ := hfields
   refine ⟨.struct tS.pos tG.pos F, by simpa [wf] using hwF, ?_⟩
@@ -174,9 +144,9 @@ theorem typeD_treeOf {ks : List TokKind} (h : TypeD ks) : TreeOf ks := by
   | array _ ih => exact array_tree ih
   | struct fs _ ih => exact struct_tree fs ih
 
-/-- every sentence of G_T (as the kinds of a token list satisfying `HeadsOK`) has a tree -/
-theorem typeD_tree {toks : List Token} (h : TypeD (toks.map (·.kind))) (hh : HeadsOK toks) :
+/-- every sentence of G_T (as the kinds of ANY token list, no side condition) has a tree -/
+theorem typeD_tree {toks : List Token} (h : TypeD (toks.map (·.kind))) :
     ∃ t, wf t = true ∧ Match (yieldT t) toks :=
-  typeD_treeOf h toks [] [] rfl (by simpa using hh) notDotEnd_nil
+  typeD_treeOf h toks rfl
 
 end MF.TypeP
